@@ -6,7 +6,7 @@ from hypothesis import strategies as st
 from conda_content_trust import authentication as A
 
 from props import C03
-from vlib import gen_deleg, gen_envelope as GE, gen_json as G, gen_metadata as GM, keys, ref_grammar as g, \
+from vlib import cfgunit, configrun, gen_deleg, gen_envelope as GE, gen_json as G, gen_metadata as GM, keys, ref_grammar as g, \
     ref_schema, ref_verify as RV
 from vlib.ref_canon import canon
 from vlib.runner import Unit, Violation
@@ -173,7 +173,34 @@ def check_strip_root(case):
     return {"nontrivial": nt, "labels": labs + ["flaw=" + case["flaw"]]}
 
 
+@st.composite
+def _config_cases(draw):
+    calls = []
+    for _ in range(draw(st.integers(2, 4))):
+        c = draw(_binding_cases())
+        calls.append(["verify_delegation", c["role"], c["U"], c["T"], c["gpg"]])
+    # non-ASCII role name on an ASCII / closed stdout: diagnostics must not decide the verdict
+    c = draw(_binding_cases())
+    role = draw(st.sampled_from(["caf\u00e9", "r\u043eot", "\ud800"]))
+    T = c["T"]
+    T["signed"]["delegations"][role] = T["signed"]["delegations"][c["role"]]
+    calls.append(["verify_delegation", role, c["U"], T, c["gpg"]])
+    cfg = draw(configrun.configs)
+    cfg["stdout"] = draw(st.sampled_from([None, "closed", "closed"]))
+    cfg["PYTHONIOENCODING"] = draw(st.sampled_from(["ascii", "ascii", "utf-8", None]))
+    return {"calls": calls, "config": cfg}
+
+
+def check_config(case):
+    verdicts, labels, count = cfgunit.config_probe(case["calls"], "sound", case["config"])
+    if "accept" in verdicts:
+        raise Violation("type-mismatched metadata accepted under configuration %r" % case["config"], bucket="type not bound to role")
+    return {"nontrivial": True, "labels": labels, "count": count}
+
+
 UNITS = [
+    Unit("config", check_config, strategy=_config_cases, quick=24, thorough=400, shards_quick=8, shrink=False,
+         doc="type binding in fresh interpreters: closed / ASCII stdout with non-ASCII role names, logging level, -O, warnings, environment variables"),
     Unit("type_binding", check_binding, strategy=_binding_cases, quick=800, thorough=30000,
          essential=["manip=0", "manip=1"],
          doc="type X metadata validly signed for role R != X is never accepted as R, whatever the signature map holds"),
